@@ -754,8 +754,8 @@ func runC20(t interface{ Fatal(...any) }, spec *hutil.Spec, out *hutil.Out, e *v
 		if spec.Property == "C19" && c.Mode != "codes" && c.Mode != "scodes" && c.Mode != "sfail" {
 			continue
 		}
-		if spec.Property == "C10" && c.Mode != "scodes" && c.Mode != "sfail" && c.Mode != "scenario" {
-			continue // C10: the sample-per-step clause for the gRPC scenario gun
+		if spec.Property == "C10" && c.Mode != "scodes" && c.Mode != "sfail" && c.Mode != "scenario" && c.Mode != "codes" {
+			continue // C10: one sample per call / executed step with the code it has when it is reported
 		}
 		if out.OverBudget() {
 			return
